@@ -9,7 +9,7 @@ CHECKS = {
    "Trusts the simulator (simkit): crash granularity is write() calls plus explicit truncation; TLS/kernel TCP/fork are stubs; dbm.dumb is the only dbm back end here.",
    "deterministic simulation: crash-point / ENOSPC / torn-write injection at the file seam + seeded PCT scheduling of concurrent readers vs writer, reference-model comparison"),
  "C12": ("fault_enumeration", "3.7",
-   "Seeded simulation of real directory listings over a scratch tree containing one or two unservable entries (dangling/looping symlink, FIFO, socket, names the security filter rejects, stat failing with ENOENT/EACCES/EIO/ELOOP after enumeration, deletion injected exactly before the n-th file-system call that touches the entry or its sidecar, special files named like a UMN dot link file, like a neighbour's .abstract/.keywords/.ask/.3d sidecar, like a .cap/<name> file, like the directory cache file (fresh or expired) or like a ZIP index cache, archives whose symbolic-link members cannot be resolved (empty, escaping, looping targets), a gophermap directory whose linked file disappears or turns EACCES after exists(), a link-file block that hides or titles the unservable entry) at varied sort positions, through every listing protocol, both directory handlers and both server types. The listing must succeed and every other entry must equal the reference listing. Fault kinds x positions are enumerated by index for the first runs and sampled afterwards.",
+   "Seeded simulation of real directory listings over a scratch tree containing one or two unservable entries (dangling/looping symlink, FIFO, socket, names the security filter rejects, stat failing with ENOENT/EACCES/EIO/ELOOP after enumeration, deletion injected exactly before the n-th file-system call that touches the entry or its sidecar, special files named like a UMN dot link file, like a neighbour's .abstract/.keywords/.ask/.3d sidecar, like a .cap/<name> file, like the directory cache file (fresh or expired) or like a ZIP index cache, archives whose symbolic-link members cannot be resolved (empty, escaping, looping targets), a gophermap directory whose linked file disappears or turns EACCES after exists() or whose port field is not a number, special files called 'gophermap', PYG files that do not load, damaged archives, one-character directory names with root twins (type-rewriting handler), a link-file block that hides or titles the unservable entry) at varied sort positions, through every listing protocol, both directory handlers and both server types. The listing must succeed and every other entry must equal the reference listing. Fault kinds x positions are enumerated by index for the first runs and sampled afterwards.",
    "Trusts the simulator; deletion races are injected at seam calls rather than by a free-running actor; FIFO open is modelled as blocking for ever.",
    "deterministic simulation: per-entry fault injection at the stat/open/listdir seam (incl. vanish-at-call), real special files, reference-model comparison of parsed listings"),
  "C20": ("fault_enumeration", "3.10",
@@ -17,15 +17,15 @@ CHECKS = {
    "Trusts the simulator; send failures are injected at sendall() granularity; exception classes already logged by the fault-free run of the same request are not attributed to the fault. One known finding (D34: decompressor / script output on plaintext connections is written by the child process).",
    "deterministic simulation: send-fault injection at every write index of the simulated socket, open-file table + fd accounting, log oracle"),
  "C10": ("exploration", "3.5",
-   "Seeded histories (5-40 operations: listings through any protocol incl. TLS variants, file create/delete/rename/rewrite, .names/.cap/.abstract edits, two directories swapping names, clock advances on both sides of the lifetime) run against one long-lived real server on a scratch tree with a simulated clock and simulated mtimes; lifetimes 0,1,2,180,3600; both directory handlers and server types. Every served listing must equal the fresh reference rendering of some tree state that was live within (now-L, now] (only the current state for L=0). Sampling of histories, no exhaustiveness.",
+   "Seeded histories (5-40 operations: listings through any protocol incl. TLS variants, file create/delete/rename/rewrite, .names/.cap/.abstract edits, two directories swapping names, clock advances on both sides of the lifetime) run against one long-lived real server on a scratch tree with a simulated clock and simulated mtimes; lifetimes 0,1,2,180,3600; other cache file names and ignore patterns; request lines that arrive late (first byte at once, the rest after the lifetime has passed); directory scans that fail for one request; both directory handlers and server types. Every served listing must equal the fresh reference rendering of some tree state that was live within (now-L, now] (only the current state for L=0). Sampling of histories, no exhaustiveness.",
    "Trusts the simulator and the reference server (the same pygopherd code run alone with cachetime 0 on a snapshot of the state). Monotone clock only. One known finding (D14) is listed in known_findings.json.",
    "deterministic simulation: simulated clock + mtimes, seeded mutation/advance/request histories, history oracle against per-state reference renderings (explicit cache-age model)"),
  "C14": ("exploration", "3.8",
-   "Seeded bursts of 2-8 simultaneous mixed-protocol clients (plus, in a tenth of the runs, storms of 10-16 clients on one ZIP archive, and floods of 42-60 clients on the forking server, half of them with max_children silent clients followed by late ordinary ones) (plaintext and stub-TLS, incl. header-detected WAP) against the real ThreadingTCPServer (baton-passing threads, pre-emption at every seam call, at sampled Python lines and around every statically found store to shared module/class/server state) and the real ForkingTCPServer (simulated fork with descriptor refcounts and private module memory per child); cold start per run, optional second burst on the warm server, shared directory caches; network plans with segmentation, delays, a stalled client, a slow reader with a small send buffer, a reset. Schedules are drawn by a seeded uniform/sticky/PCT scheduler. Oracles: byte equality with the sequential reference answer, bounded liveness (answered within 1 simulated second of the last request byte whatever other clients do; probes served), reaping (no zombie, no returning child, no leaked connection reference, finished threads leave server._threads). Sampling of schedules.",
+   "Seeded bursts of 2-8 simultaneous mixed-protocol clients (plus, in a tenth of the runs, storms of 10-16 clients on one ZIP archive, and floods of 42-60 clients on the forking server, half of them with max_children silent clients followed by late ordinary ones) (plaintext and stub-TLS, incl. header-detected WAP) against the real ThreadingTCPServer (baton-passing threads, pre-emption at every seam call, at sampled Python lines and around every statically found store to shared module/class/server state) and the real ForkingTCPServer (simulated fork with descriptor refcounts and private module memory per child); cold start per run, optional second burst on the warm server, shared directory caches; network plans with segmentation, delays, a stalled client (plaintext or TLS: the simulated TLS socket retries for ever on kernel-level timeouts, as the ssl module does), a slow reader with a small send buffer, a reset; script requests with different search strings; a transient stat/open failure (EMFILE/EIO/EACCES) in one worker, followed by a lone probe. Schedules are drawn by a seeded uniform/sticky/PCT scheduler. Oracles: byte equality with the sequential reference answer, bounded liveness (answered within 1 simulated second of the last request byte whatever other clients do; probes served), reaping (no zombie, no returning child, no leaked connection reference, finished threads leave server._threads). Sampling of schedules.",
    "Trusts the simulator. Pre-emption granularity is a Python line; class objects and stdlib module state are shared between simulated children; kernel TCP/TLS/fork are stubs. One known finding (D35: the forking accept loop reaps with a blocking waitpid once max_children children are alive).",
    "deterministic simulation: seeded PCT/uniform scheduling of real worker threads and simulated forked children with line-level and shared-store-directed pre-emption, network fault plans, reference-model comparison + liveness/reaping invariants"),
  "C07": ("exploration", "3.4",
-   "The OS enumeration order of a directory is owned by the simulator (seeded permutation at os.listdir, all n! orders for directories of up to 4 names). Seeded directories mix names on both sides of every alternative of the shipped ignore pattern, dot-files, several UMN link files (overrides of the same entry from two files, hides, additions with tying titles), .cap overrides, dot-files with unparsable link-file lines, HTML files with malformed heads, names containing TAB/CR/LF (may be omitted, must never add foreign items) and names with '|' or '?' next to a mail folder of the same stem; both directory handlers, eight protocols, both server types. The same listing is requested under K enumeration orders and must be byte-identical; its local entries must be exactly the visible names once each plus exactly the link-file additions; every excluded name must still be served by exact selector.",
+   "The OS enumeration order of a directory is owned by the simulator (seeded permutation at os.listdir, all n! orders for directories of up to 4 names). Seeded directories mix names on both sides of every alternative of the shipped ignore pattern, dot-files, several UMN link files (overrides of the same entry from two files, hides, additions with tying titles), .cap overrides, dot-files with unparsable link-file lines, HTML files with malformed heads, names containing TAB/CR/LF (may be omitted, must never add foreign items) and names with '|' or '?' next to a mail folder of the same stem; both directory handlers and the documented full handler list (executables with '?'/'|' siblings, TAL templates, PYG files that do not load, archives that cannot be indexed), a directory whose selector looks like a mailbox message selector, eight protocols, both server types. The same listing is requested under K enumeration orders and must be byte-identical; its local entries must be exactly the visible names once each plus exactly the link-file additions; every excluded name must still be served by exact selector.",
    "Trusts the simulator and a 20-line visible-set model (dot-file, re.search(ignorepatt, selectorbase/name), Type=X in .cap or a ./ link block). One known finding (D12: plain DirHandler lists dot-files).",
    "deterministic simulation: seeded/exhaustive readdir-order permutation at the listdir seam, determinism-across-orders oracle + independent visible-set model"),
  "C19": ("fault_enumeration", "3.9",
@@ -33,15 +33,15 @@ CHECKS = {
    "Privileged system calls are modelled, not executed; the process is assumed to start as root with a cwd outside the document root.",
    "deterministic simulation of the privileged-syscall seam: recorded call sequence + process model, exhaustive single-fault enumeration over the option grid"),
  "C03": ("exploration", "3.3",
-   "Seeded histories of 4-16 connections against ONE long-lived real server on a scratch world (cache files and ZIP index caches accumulate, module lazies stay warm, the simulated clock jumps across the cache lifetime), drawn from a grammar of valid requests for every object kind in every protocol (half of a history addresses one focus object or group, also under alias spellings and through a symlink alias) and ~100 malformed shapes (NUL in every query form, digit strings of thousands of characters, ...), with seeded segmentation, missing half-close and missing body bytes (answered after the simulated receive timeout). Per connection: answered and closed, nothing written after close, a protocol object was selected, no socketserver.handle_error, no internal-error log record, response syntactically valid for the answering protocol class (independent validators incl. Gopher+ length = body bytes, no body after Gemini/Spartan error statuses, HEAD without body, no second HTTP response on the connection, no child-process output written beneath the TLS session), closed within timeout+1 simulated seconds, and byte-equal (directory timestamps aside) to the reference server's answer to the same request alone on a pristine world.",
+   "Seeded histories of 4-16 connections against ONE long-lived real server on a scratch world (cache files and ZIP index caches accumulate, module lazies stay warm, the simulated clock jumps across the cache lifetime), drawn from a grammar of valid requests for every object kind in every protocol (half of a history addresses one focus object or group, also under alias spellings and through a symlink alias) and ~100 malformed shapes (NUL in every query form, digit strings of thousands of characters, ...), with seeded segmentation, missing half-close, missing body bytes or header terminators (answered after the simulated timeout), unfinished request lines (dropped after it), and documents that can be stat'ed but not opened (EACCES/EMFILE/EIO). The repository's own logging code runs against a strict UTF-8 stdout or a captured syslog; modules loaded at request time are byte-compiled as under bin/pygopherd. Per connection: answered and closed, nothing written after close, a protocol object was selected, no socketserver.handle_error, no internal-error log record, response syntactically valid for the answering protocol class (independent validators incl. Gopher+ length = body bytes, no body after Gemini/Spartan error statuses, HEAD without body, no second HTTP response on the connection, no child-process output written beneath the TLS session), closed within timeout+1 simulated seconds, and byte-equal (directory timestamps aside) to the reference server's answer to the same request alone on a pristine world.",
    "Trusts the simulator, the validators in simkit/proto.py and the reference server. TLS handshakes are always well-formed (stub). One known finding (D17: cache files are retrievable).",
    "deterministic simulation: request histories on one stateful server with simulated clock, receive timeouts and network segmentation; per-connection invariants + history-independence against a reference run"),
  "C02": ("exploration", "3.2",
-   "Every connection runs on a live simulated socket against the real server classes: all 256 first-byte values are swept with and without a TLS context, as one segment and with the first byte alone; seeded histories of 8-24 connections per server configuration (shipped protocol list read from the repository's conf, seeded permutations and sub-lists) mix canonical request shapes and near-misses of every protocol, random byte lines and HTTP header-block variants, each repeated under different segmentation/delay plans. Observed from outside: whether the TLS context wrapped the socket, the request line the handler read after the sniff, the class returned by getProtocol. Oracles: TLS iff 0x16, sniff consumes nothing, determinism across segmentation and history, secure flag = TLS-ness, totality with the shipped list, first documented-shape match wins (small independent shape model).",
+   "Every connection runs on a live simulated socket against the real server classes: all 256 first-byte values are swept with and without a TLS context, as one segment and with the first byte alone; seeded histories of 8-24 connections per server configuration (shipped protocol list read from the repository's conf, seeded permutations and sub-lists) mix canonical request shapes and near-misses of every protocol, random byte lines and HTTP header-block variants, each repeated under different segmentation/delay plans, including pauses longer than the configured timeout inside the first line and first lines of 8-70 KiB. Observed from outside: whether the TLS context wrapped the socket, the request line the handler read after the sniff, the class returned by getProtocol. Oracles: TLS iff 0x16, sniff consumes nothing, determinism across segmentation and history, secure flag = TLS-ness, totality with the shipped list, first documented-shape match wins (small independent shape model).",
    "Trusts the simulator and the 40-line shape model (only applied to canonical shapes and clear near-misses). TLS is a stub.",
    "deterministic simulation: live simulated sockets with seeded segmentation/delays and MSG_PEEK, exhaustive first-byte sweep, connection histories, observation of wrap_socket and getProtocol from outside"),
  "C01": ("exploration", "3.1",
-   "The world outside the document root is a simulated, varied component: each run serves 30-80 requests from a traversal grammar (every protocol syntax and TLS variant x base object incl. ZIP with symlink members, archives whose members look like a mailbox / Maildir / archive / script / PYG, a gophermap whose link lines climb, mbox, script, PYG and files whose names contain backslashes or '..' x climbing token before/inside/after x 1-3 percent-encoding layers in five styles x virtual-argument, ZIP-member, URL: and type-rewrite forms) twice, in two worlds that are identical inside the root and differ outside (decoy secrets, a decoy ZIP/PYG/script, a string-prefix sibling of the root; present, missing, or replaced by directories) and under two different working directories (seeded directories inside the scratch tree that hold decoy twins of the archive members), with the shipped and the full handler list and both server types. Checked: seam monitor (audit events + interposed open/listdir: nothing outside the root, no '..' component, no relative path, programs executed live in the root), byte-identical responses and logs across the world pair, not-found for every selector whose once-decoded, slash-normalised form contains a climbing token. The request dimension is sampled input generation; the environment and the I/O seam are what is simulated.",
+   "The world outside the document root is a simulated, varied component: each run serves 30-80 requests from a traversal grammar (every protocol syntax and TLS variant x base object incl. ZIP with symlink members, archives whose members look like a mailbox / Maildir / archive / script / PYG, a gophermap whose link lines climb, mbox, script, PYG and files whose names contain backslashes or '..' x climbing token before/inside/after x 1-3 percent-encoding layers in five styles x virtual-argument, ZIP-member, URL: and type-rewrite forms) twice, in two worlds that are identical inside the root and differ outside (decoy secrets, a decoy ZIP/PYG/script, string-prefix siblings of the root; present, missing, replaced by directories, self-referencing or dangling links) and under two different working directories (seeded directories inside the scratch tree that hold decoy twins of the archive members) and two configuration files that differ in what they say about things outside the root (a private section, key and pid-file paths), with the shipped and the full handler list and both server types. Checked: seam monitor (audit events + interposed open/listdir: nothing outside the root, no '..' component, no relative path, programs executed live in the root), byte-identical responses and logs across the world pair, not-found for every selector whose once-decoded, slash-normalised form contains a climbing token. The request dimension is sampled input generation; the environment and the I/O seam are what is simulated.",
    "Trusts sys.addaudithook coverage and the interposed os/builtins entry points; a bare stat() of root+selector before the filter is counted but not flagged (it opens, reads, lists and runs nothing; revelation is decided by the world-pair comparison).",
    "deterministic simulation of the environment: world-pair non-interference under varied outside-of-root state and cwd + I/O-seam monitor (audit hook and interposed file-system entry points), seeded traversal grammar"),
 }
